@@ -3,6 +3,7 @@
 Dict model keyed by (sid, namespace); every stored value carries a unique
 marker naming its origin, so a leak identifies where it came from.
 """
+import collections
 import copy
 
 from vlib import gen
@@ -15,6 +16,13 @@ TIERS = {
     'thorough': {'budget': 300, 'watchdog': 900, 'shards': 16},
 }
 NAMESPACES = ['/', '/a', '/b']
+
+
+class Bag(collections.UserDict):
+    """An application's own session class: a mapping, not a dict."""
+
+    def __deepcopy__(self, memo):
+        return Bag(copy.deepcopy(self.data, memo))
 
 
 def origins(x, out):
@@ -137,6 +145,68 @@ class History:
         if self.rng.random() < 0.5:
             v['extra'] = gen.gen_tree(self.rng, 3, [8], True)
         return v
+
+    def mapping_session_probe(self, T, ns, sid):
+        """What an application saves as its session need not be a dict: a
+        mapping object of its own (here a collections.UserDict subclass) is
+        what every later get_session() / session() returns."""
+        ctx = self.ctx
+        self.marker += 1
+        bag = Bag({'bag': self.marker, 'owner': [T, ns]})
+        op = ['save_session', sid, ns, bag]
+        self.ops.append(['save_session', sid, ns, 'Bag(%r)' % dict(bag)])
+        res = self.r.step(op)
+        if res.get('exc'):
+            return self.fail('save_session(mapping object) raised', res)
+        res = self.r.step(['get_session', sid, ns])
+        got = res.get('ret')
+        ctx.count('mapping_sessions_checked')
+        if res.get('exc') or type(got).__name__ != 'Bag' or \
+                dict(got) != {'bag': self.marker, 'owner': [T, ns]}:
+            return self.fail('the session saved for %r on %r was a mapping '
+                             'object holding %r; get_session() returned %r '
+                             '(%s)' % (sid, ns, dict(bag), got,
+                                       type(got).__name__), res)
+        res = self.r.step(['session_block', sid, ns, {'more': self.marker}])
+        res = self.r.step(['get_session', sid, ns])
+        got = res.get('ret')
+        if res.get('exc') or type(got).__name__ != 'Bag' or \
+                dict(got) != {'bag': self.marker, 'owner': [T, ns],
+                              'more': self.marker}:
+            return self.fail('a session() block on a mapping-object session '
+                             'left %r' % (got,), res)
+        # back to a plain dict for the rest of the history
+        res = self.r.step(['save_session', sid, ns,
+                           copy.deepcopy(self.model[(sid, ns)])])
+        if res.get('exc'):
+            return self.fail('save_session raised', res)
+
+    def wrong_namespace_probe(self, T, ns, sid):
+        """Session calls that name a namespace the session id does not
+        belong to are refused (they raise) and touch nobody's session."""
+        ctx, rng = self.ctx, self.rng
+        others = [n2 for n2 in NAMESPACES if n2 != ns]
+        ns2 = rng.choice(others)
+        self.marker += 1
+        for op in (['get_session', sid, ns2],
+                   ['save_session', sid, ns2, {'planted': self.marker}],
+                   ['session_block', sid, ns2, {'planted': self.marker}]):
+            self.ops.append(op + ['(wrong namespace)'])
+            res = self.r.step(op)
+            ctx.count('session_calls_with_wrong_namespace')
+            if not res.get('exc'):
+                return self.fail(
+                    '%s for session id %r, which belongs to %r, with '
+                    'namespace=%r did not raise (returned %r)' % (
+                        op[0], sid, ns, ns2, res.get('ret')), res)
+        self.r.d.clear_errors()
+        # nobody's session was touched
+        for (T2, n2), s2 in sorted(self.conn.items()):
+            if T2 != T:
+                continue
+            res = self.r.step(['get_session', s2, n2])
+            if self.check_get(res, s2, n2, T2) is False:
+                return
 
     def check_get(self, res, sid, ns, T, fresh=False):
         want = self.model[(sid, ns)]
@@ -304,6 +374,10 @@ class History:
             return self.block_across_reconnect(T, ns, sid)
         if r > 0.94:
             return self.refused_connect(T)
+        if r > 0.915:
+            return self.mapping_session_probe(T, ns, sid)
+        if r > 0.89:
+            return self.wrong_namespace_probe(T, ns, sid)
         if r < 0.32:
             k = rng.random()
             if k < 0.45:
@@ -447,6 +521,8 @@ def run(ctx):
     ctx.require('same_transport_reconnects', 5)
     ctx.require('session_blocks', 20)
     ctx.require('session_blocks_with_a_save_inside', 5)
+    ctx.require('mapping_sessions_checked', 10)
+    ctx.require('session_calls_with_wrong_namespace', 10)
     ctx.require('saves', 20)
     ctx.require('sibling_namespace_reads', 5)
     ctx.require('duplicate_connects', 5)
